@@ -523,8 +523,29 @@ def scaled(rng: random.Random, count: int) -> list[tuple[str, object]]:
         return X.Logarithm(X.Add(X.NthPower(u, 2), C(2)), base=rng.choice([math.e, 2, 10]))
 
     for _ in range(count):
-        kind = rng.randrange(8)
-        if kind == 0:       # wide sum / product
+        kind = rng.randrange(10)
+        if kind == 8:       # very wide: counts just past the usual thresholds (16, 32, 64, 100, 128, 256)
+            k = rng.choice([17, 33, 34, 40, 65, 100, 101, 129, 257])
+            x = V[rng.choice(names[:3])]
+            how = rng.randrange(4)
+            if how == 0:
+                e = X.Add(*[X.Multiply(C(1 + i % 7), x) if i % 3 else X.Sine(X.Multiply(C(i % 5 + 1), x)) for i in range(k)])
+            elif how == 1:
+                e = x
+                for i in range(min(k, 130) - 1):
+                    e = e + (x if i % 4 else V["y"])
+            elif how == 2:
+                e = X.Multiply(*[X.Add(C(1), X.Multiply(C(0.001 * (1 + i % 9)), x)) for i in range(min(k, 130))])
+            else:
+                e = X.Add(*[V[names[i % 7]] for i in range(k)], X.Multiply(*[V[names[i % 5]] for i in range(6)]))
+            tag = "very-wide"
+        elif kind == 9:     # a shared node doubled again and again: 2^k occurrences of every leaf
+            s0 = X.Add(X.Multiply(V["x"], V["y"]), X.Negation(V["x"]), C(0.25))
+            e = s0
+            for i in range(rng.randint(5, 8)):
+                e = X.Add(e, e) if i % 2 == 0 else X.Multiply(C(0.5), X.Add(e, e))
+            tag = "doubling"
+        elif kind == 0:     # wide sum / product
             op = rng.choice([X.Add, X.Multiply])
             e = op(*[small() for _ in range(rng.randint(6, 14))])
             tag = "wide"
